@@ -723,6 +723,20 @@ theorem queue_order : QueueOrderStatement := by
 theorem failure_reaches_awaiters_of_checked (hC : CheckedStatement) : FailureReachesAwaitersStatement :=
   failure_reaches_awaiters_partial queue_order hC
 
+/-- **Missing lemma 2 is a theorem**: after every complete choice no worker keeps an awaiter registered for a process
+that has a result (`Worker::step` ends with `check_completed_processes`, which reports every awaited target that has a
+result and clears its registrations; a registration is always for an `awaited` target). -/
+theorem checked : CheckedStatement :=
+  fun n prog req _ _ cs => Or.inr (checked_run n prog req cs)
+
+/-- **`FailureReachesAwaitersStatement` is a THEOREM** (every configuration of the runtime variants): whenever the
+composed system — environment, workers, executors, under ANY schedule of choices — is quiescent, no live process still
+awaits a failed process without having the failure recorded as a ready source of its select. Hence (C05: a recorded
+failure is a ready source; C04: no lost wake-up) every awaiter of a failed process fails with it or completes through
+an earlier source. -/
+theorem failure_reaches_awaiters : FailureReachesAwaitersStatement :=
+  failure_reaches_awaiters_partial queue_order checked
+
 end FailChain
 
 end C15
